@@ -1013,6 +1013,12 @@ impl ProtocolState {
         }
 
         info!("[{} ms] handle_network_event_connection_closed", self.elapsed_time_ms);
+
+        // ack timeouts that have already elapsed are applied before the records are dropped: an operation that has
+        // waited longer than its timeout fails with the ack timeout error, it is not carried over to the next
+        // connection with a fresh clock just because no service call ran between its deadline and the close
+        let timeout_result = ignore_user_initiated_disconnect(self.process_ack_timeouts());
+
         self.change_state(ProtocolStateType::Disconnected);
         self.connack_timeout_timepoint = None;
         self.next_ping_timepoint = None;
@@ -1023,7 +1029,7 @@ impl ProtocolState {
         self.apply_slow_start_initialization();
         self.update_interrupted_retries();
 
-        let mut result : GneissResult<()> = Ok(());
+        let mut result : GneissResult<()> = timeout_result;
         let mut completions : VecDeque<u64> = VecDeque::new();
 
         /*
